@@ -199,9 +199,9 @@ func init() {
 			Gen: func(ctx *fw.Ctx) []fw.Case {
 				var cs []fw.Case
 				ids := gateGrid(ctx.Quick)
-				reps := 2
+				reps := 6
 				if !ctx.Quick {
-					reps = 3
+					reps = 6
 				}
 				for _, id := range ids {
 					for k := 0; k < reps; k++ {
@@ -209,7 +209,7 @@ func init() {
 						cs = append(cs, fw.Case{ID: fmt.Sprintf("honest/%s/%d", trunc(id, 70), k), Kind: "honest", P: map[string]any{"id": id, "k": k}})
 					}
 				}
-				nf := 12
+				nf := 100
 				if !ctx.Quick {
 					nf = 200
 				}
